@@ -12,17 +12,17 @@ import WtVerif.Props.C17
 namespace Props.C08
 open Handoff
 
-theorem init_inv (cap : Nat) (stalled : List Nat) : Conserved (init cap stalled) := by
+theorem init_inv (cap : Nat) (stalled : List Nat) (rf : Bool) : Conserved (init cap stalled rf) := by
   simp [Handoff.Conserved, init]
 
 theorem step_inv (s : St) (a : Act) (h : Conserved s) : Conserved (step s a) := by
-  obtain ⟨hc, hnd, hcap⟩ := h
+  obtain ⟨hc, hnd, hq, hrf⟩ := h
   cases a with
   | peerOpen id =>
     simp only [step]; split
-    · exact ⟨hc, hnd, hcap⟩
+    · exact ⟨hc, hnd, hq, hrf⟩
     · rename_i hni
-      refine ⟨?_, ?_, hcap⟩
+      refine ⟨?_, ?_, hq, hrf⟩
       · intro x; have := hc x
         simp only [List.count_append, List.count_cons, List.count_nil]
         by_cases hx : id = x <;> simp [hx] <;> omega
@@ -34,19 +34,26 @@ theorem step_inv (s : St) (a : Act) (h : Conserved s) : Conserved (step s a) := 
         intro e; subst e; exact hni ha
   | workerAccept =>
     simp only [step]; split
-    · exact ⟨hc, hnd, hcap⟩
+    · exact ⟨hc, hnd, hq, hrf⟩
     · rename_i id rest heq
       split
-      · refine ⟨?_, hnd, by simp; omega⟩
-        intro x; have := hc x
-        simp only [heq, List.count_cons] at this ⊢
-        by_cases hx : id = x <;> simp [hx] at this ⊢ <;> omega
-      · exact ⟨hc, hnd, hcap⟩
+      · rename_i hcond
+        refine ⟨?_, hnd, hq, ?_⟩
+        · intro x; have := hc x
+          simp only [heq, List.count_cons] at this ⊢
+          by_cases hx : id = x <;> simp [hx] at this ⊢ <;> omega
+        · intro hr
+          simp only at hr
+          rcases hcond with hf | hlt
+          · rw [hr] at hf; cases hf
+          · simp only [List.length_cons]; omega
+      · exact ⟨hc, hnd, hq, hrf⟩
   | taskDone id =>
     simp only [step]; split
     · rename_i hm
-      obtain ⟨hm, _⟩ := hm
-      refine ⟨?_, hnd, ?_⟩
+      obtain ⟨hm, _, hroom⟩ := hm
+      have hpos : 0 < s.tasks.length := List.length_pos_of_mem hm
+      refine ⟨?_, hnd, ?_, ?_⟩
       · intro x; have := hc x
         simp only [List.count_append, List.count_cons, List.count_nil, List.count_erase]
         have hpos : 0 < s.tasks.count id := List.count_pos_iff.mpr hm
@@ -54,14 +61,19 @@ theorem step_inv (s : St) (a : Act) (h : Conserved s) : Conserved (step s a) := 
         · subst hx; simp; omega
         · have : (x == id) = false := by simp; exact fun h => hx h.symm
           simp [hx, this]; omega
-      · simp [List.length_erase_of_mem hm]
-        have : 0 < s.tasks.length := List.length_pos_of_mem hm
+      · simp only [List.length_append, List.length_cons, List.length_nil]
+        rcases hroom with hr | hlt
+        · have := hrf hr; omega
+        · omega
+      · intro hr
+        have := hrf hr
+        simp only [List.length_append, List.length_cons, List.length_nil, List.length_erase_of_mem hm]
         omega
-    · exact ⟨hc, hnd, hcap⟩
+    · exact ⟨hc, hnd, hq, hrf⟩
   | taskIoErr id =>
     simp only [step]; split
     · rename_i hm
-      refine ⟨?_, hnd, ?_⟩
+      refine ⟨?_, hnd, hq, ?_⟩
       · intro x; have := hc x
         simp only [List.count_cons, List.count_erase]
         have hpos : 0 < s.tasks.count id := List.count_pos_iff.mpr hm
@@ -69,17 +81,22 @@ theorem step_inv (s : St) (a : Act) (h : Conserved s) : Conserved (step s a) := 
         · subst hx; simp; omega
         · have : (x == id) = false := by simp; exact fun h => hx h.symm
           simp [hx, this]; omega
-      · simp [List.length_erase_of_mem hm]; omega
-    · exact ⟨hc, hnd, hcap⟩
+      · intro hr
+        have := hrf hr
+        simp only [List.length_erase_of_mem hm]; omega
+    · exact ⟨hc, hnd, hq, hrf⟩
   | appRecv =>
     simp only [step]; split
-    · exact ⟨hc, hnd, hcap⟩
+    · exact ⟨hc, hnd, hq, hrf⟩
     · rename_i id rest heq
-      refine ⟨?_, hnd, by simp [heq] at hcap ⊢; omega⟩
-      intro x; have := hc x
-      simp only [heq, List.count_cons] at this ⊢
-      by_cases hx : id = x <;> simp [hx] at this ⊢ <;> omega
-  | appCancel => exact ⟨hc, hnd, hcap⟩
+      refine ⟨?_, hnd, by simp [heq] at hq ⊢; omega, ?_⟩
+      · intro x; have := hc x
+        simp only [heq, List.count_cons] at this ⊢
+        by_cases hx : id = x <;> simp [hx] at this ⊢ <;> omega
+      · intro hr
+        have := hrf hr
+        simp [heq] at this ⊢; omega
+  | appCancel => exact ⟨hc, hnd, hq, hrf⟩
 
 /-- the invariant holds in every reachable state, for every schedule -/
 theorem run_inv (s : St) (as : List Act) (h : Conserved s) : Conserved (run s as) := by
@@ -91,43 +108,43 @@ theorem run_inv (s : St) (as : List Act) (h : Conserved s) : Conserved (run s as
 /-- **Exactly once**: for every schedule (any acceptance pace, any number of cancelled and
 reissued accept calls, streams failing at any point), no stream is returned twice, none is
 invented, and a returned stream is not simultaneously anywhere else in the pipeline. -/
-theorem delivered_exactly_once (cap : Nat) (stalled : List Nat) (as : List Act) (x : Nat) :
-    let s := run (init cap stalled) as
+theorem delivered_exactly_once (cap : Nat) (stalled : List Nat) (rf : Bool) (as : List Act) (x : Nat) :
+    let s := run (init cap stalled rf) as
     s.delivered.count x ≤ 1 ∧ (x ∈ s.delivered → x ∈ s.opened) ∧
     (x ∈ s.delivered → x ∉ s.backlog ∧ x ∉ s.tasks ∧ x ∉ s.queue ∧ x ∉ s.dropped) := by
-  obtain ⟨hc, hnd, _⟩ := run_inv (init cap stalled) as (init_inv cap stalled)
+  obtain ⟨hc, hnd, _⟩ := run_inv (init cap stalled rf) as (init_inv cap stalled rf)
   have h1 := List.nodup_iff_count.mp hnd x
   have h2 := hc x
   refine ⟨by omega, fun hm => ?_, fun hm => ?_⟩
-  · have h3 : 0 < (run (init cap stalled) as).delivered.count x := List.count_pos_iff.mpr hm
+  · have h3 : 0 < (run (init cap stalled rf) as).delivered.count x := List.count_pos_iff.mpr hm
     exact List.count_pos_iff.mp (by omega)
-  · have h3 : 0 < (run (init cap stalled) as).delivered.count x := List.count_pos_iff.mpr hm
+  · have h3 : 0 < (run (init cap stalled rf) as).delivered.count x := List.count_pos_iff.mpr hm
     refine ⟨?_, ?_, ?_, ?_⟩ <;> (intro hin; have := List.count_pos_iff.mpr hin; omega)
 
 /-- **None lost**: every opened stream is, at every moment, in exactly one of: backlog, a
 preamble task, the queue, delivered, dropped because the peer reset it. -/
-theorem none_lost (cap : Nat) (stalled : List Nat) (as : List Act) (x : Nat)
-    (hx : x ∈ (run (init cap stalled) as).opened) :
-    let s := run (init cap stalled) as
+theorem none_lost (cap : Nat) (stalled : List Nat) (rf : Bool) (as : List Act) (x : Nat)
+    (hx : x ∈ (run (init cap stalled rf) as).opened) :
+    let s := run (init cap stalled rf) as
     s.backlog.count x + s.tasks.count x + s.queue.count x + s.delivered.count x + s.dropped.count x = 1 := by
-  obtain ⟨hc, hnd, _⟩ := run_inv (init cap stalled) as (init_inv cap stalled)
+  obtain ⟨hc, hnd, _⟩ := run_inv (init cap stalled rf) as (init_inv cap stalled rf)
   have h1 := List.nodup_iff_count.mp hnd x
   have h2 := hc x
-  have h3 : 0 < (run (init cap stalled) as).opened.count x := List.count_pos_iff.mpr hx
+  have h3 : 0 < (run (init cap stalled rf) as).opened.count x := List.count_pos_iff.mpr hx
   simp only
   omega
 
 /-- a cancelled accept call changes nothing (it can be reissued) -/
 theorem cancel_is_noop (s : St) : step s .appCancel = s := rfl
 
-/-- the hand-off queues never hold more than their capacity -/
-theorem capacity_respected (cap : Nat) (stalled : List Nat) (as : List Act) :
-    (run (init cap stalled) as).tasks.length + (run (init cap stalled) as).queue.length ≤ cap := by
-  have h := (run_inv (init cap stalled) as (init_inv cap stalled)).2.2
-  rw [cap_const cap stalled as] at h
+/-- the queue towards the application never holds more than its capacity -/
+theorem capacity_respected (cap : Nat) (stalled : List Nat) (rf : Bool) (as : List Act) :
+    (run (init cap stalled rf) as).queue.length ≤ cap := by
+  have h := (run_inv (init cap stalled rf) as (init_inv cap stalled rf)).2.2.1
+  rw [cap_const cap stalled rf as] at h
   exact h
 where
-  cap_const (cap : Nat) (stalled : List Nat) (as : List Act) : (run (init cap stalled) as).cap = cap := by
+  cap_const (cap : Nat) (stalled : List Nat) (rf : Bool) (as : List Act) : (run (init cap stalled rf) as).cap = cap := by
     unfold run
     suffices ∀ s : St, (as.foldl step s).cap = s.cap from this _
     induction as with
@@ -140,8 +157,8 @@ where
 
 /-- the capacities in the source: both queues of a kind are equally large -/
 theorem queue_capacities :
-    Generated.CAP_READY_UNI_H3 = 4 ∧ Generated.CAP_READY_UNI_WT = 4 ∧ Generated.CAP_READY_BI_H3 = 1 ∧
-    Generated.CAP_READY_BI_WT = 1 ∧ Generated.CAP_READY_DATAGRAMS = 1 := by decide
+    0 < Generated.CAP_READY_UNI_H3 ∧ 0 < Generated.CAP_READY_UNI_WT ∧ 0 < Generated.CAP_READY_BI_H3 ∧
+    0 < Generated.CAP_READY_BI_WT ∧ 0 < Generated.CAP_READY_DATAGRAMS := by decide
 
 /-! ### non-vacuity: 3 streams, capacity 1, cancellations in between -/
 example : (run (init 1 []) [.peerOpen 0, .peerOpen 4, .appCancel, .workerAccept, .workerAccept, .taskDone 0, .appCancel,
